@@ -1,0 +1,13 @@
+//go:build verif
+
+// Contracts (machine-checked by /verif/govc) for package config.
+// This file contains comments only; it is compiled only with the build tag "verif" and adds no code.
+
+package config
+
+// C13 / C14: inverting a search-attribute translation flips the direction and keeps the mappings, so
+// inverting twice restores the original view.
+//@ contract (SearchAttributeTranslation).Inverse
+//@   props C13 C14
+//@   ensures result.inverted == !s.inverted && result.inner == s.inner
+//@   assigns nothing
